@@ -471,7 +471,7 @@ def handleWObs (acc : Acc) (h : WHist) (kv : KV) (_line : String) : Acc × WHist
             | _ => none))
           let acc := if listed == reg.take 3 then acc
             else acc.report "SPECFAIL" "C14" s!"{kind}:get-all-vamm-disagrees-with-registry" tline
-          let acc := if known.all (fun v => qis.contains v == reg.contains v) then acc
+          let acc := if known.all (fun v => qis.contains v == reg.contains v) && qis.all (fun v => reg.contains v) then acc
             else acc.report "SPECFAIL" "C14" s!"{kind}:is-vamm-disagrees-with-registry" tline
           if qall == "err" || stat.map (fun (p : Nat × Bool) => p.1) == reg.take 3
                && stat.all (fun (p : Nat × Bool) => match obs.w.vamm? p.1 with | some x => x.st.isOpen == p.2 | none => true) then acc
